@@ -43,3 +43,7 @@ Definition probe_umap (m : umap) (nto nfrom : nat) : list (option N) * list N :=
 
 Definition probe_eqb (a b : list (option N) * list N) : bool :=
   list_eqb (option_eqb N.eqb) (fst a) (fst b) && list_eqb N.eqb (snd a) (snd b).
+
+(** [invert_then_canonicalize] *)
+From Chalk Require Import Infer.Invert.
+Definition run_invert (fuel : nat) (T : table) (t : tm) : out (option canonical) := invert_then_canonicalize fuel T t.
